@@ -294,10 +294,13 @@ CLAIMED["C04"] = {
 NOT_APPLICABLE = {
     "C01": "needs a Cert value: decoding one hits a Kani 0.68 internal "
            "compiler error (IP-resources decoder), constructing one needs a "
-           "decoded PublicKey plus SHA-1/RSA through aws-lc FFI; the one "
-           "reachable building block (AsBlocks::verify_issued) ran out of "
-           "14 GB. No solver query for this property finished, so nothing "
-           "is claimed (DESIGN.md section 3)",
+           "decoded PublicKey plus SHA-1/RSA through aws-lc FFI. The one "
+           "reachable building block (AsBlocks::verify_issued under the "
+           "refuse policy / verify_covered on canonical sets up to 2x2) is "
+           "decided under C03; the composition the property is about "
+           "(signature, validity, key usage, issuer chain, trimming policy) "
+           "is not reached by any query, so nothing is claimed (DESIGN.md "
+           "section 3)",
     "C05": "builders produce CMS objects / certificates whose decoders "
            "cannot be compiled by Kani (ICE) and whose signing is aws-lc "
            "FFI; the one certificate-free piece (RoaBuilder::to_attestation "
